@@ -38,10 +38,10 @@ def leg_a(name, consts, invariants, pop_first, keep_decode, workers=8, timeout=1
     cfg = os.path.join(d, "MC_Tracker.cfg")
     c = dict(consts)
     text = ("SPECIFICATION Spec\nCONSTANTS\n  Interval = %d\n  MaxReorg = %d\n  Trusted = %s\n  NL = %d\n  H0 = %d\n"
-            "  HMax = %d\n  MaxDev = %d\n  PopFirst = %s\n  KeepDecode = %s\nCONSTRAINT Bound\nVIEW View\n"
+            "  HMax = %d\n  MaxDev = %d\n  Deep = %s\n  PopFirst = %s\n  KeepDecode = %s\nCONSTRAINT Bound\nVIEW View\n"
             "INVARIANTS %s\nCHECK_DEADLOCK FALSE\n" % (
                 c["interval"], c["maxreorg"], _set(c["trusted"]), c["nl"], c["h0"], c["hmax"], c["maxdev"],
-                _b(pop_first), _b(keep_decode), " ".join(invariants)))
+                _b(c.get("deep", False)), _b(pop_first), _b(keep_decode), " ".join(invariants)))
     vlib.write_cfg(cfg, text)
     return vlib.tlc("MC_Tracker", cfg, workers=workers, extra=["-coverage", "1"], timeout=timeout,
                     name="mc-tracker-" + name)
@@ -146,6 +146,10 @@ def chg_names(mask):
 
 def key_move(d):
     r = d["req"]
+    if d["ok"] == 1 and d.get("post_bad"):
+        # TLC: the request was allowed, but the tip / height / remembered headers after it are not
+        # those of the previous (rm) / new (add) block
+        return "C13a:%s:%s:accepted-but-wrong-tip" % (r["op"], ",".join(deviations(r)) or "none")
     return "C13a:%s:%s:accepted" % (r["op"], ",".join(deviations(r)) or "none") if d["ok"] == 1 else \
         "C13a:%s:tip-moved-without-accept" % r["op"]
 
@@ -164,9 +168,11 @@ def simulate(consts, num, depth, seed, dest_dir):
     cfg = os.path.join(dest_dir, "SimTracker.cfg")
     c = consts
     vlib.write_cfg(cfg, "SPECIFICATION Spec\nCONSTANTS\n  Interval = %d\n  MaxReorg = %d\n  Trusted = %s\n  NL = %d\n"
-                        "  H0 = %d\n  PreWin = %d\n  TipFh = \"%s\"\n  MaxDev = %d\n  PopFirst = %s\n  KeepDecode = %s\n"
+                        "  H0 = %d\n  PreWin = %d\n  Below = %d\n  Deep = %s\n  TipFh = \"%s\"\n  MaxDev = %d\n"
+                        "  PopFirst = %s\n  KeepDecode = %s\n"
                         "  Depth = %d\nINVARIANTS Emit\nCHECK_DEADLOCK FALSE\n" % (
                             c["interval"], c["maxreorg"], _set(c["trusted"]), c["nl"], c["h0"], c["prewin"],
+                            c.get("below", 0), _b(c.get("deep", False)),
                             "zero" if c["fh"] == "zero" else "ok", c["maxdev"], _b(SWITCHES["popFirst"]),
                             _b(SWITCHES["keepDecode"]), depth))
     r = vlib.tlc("SimTracker", cfg, workers=1,
